@@ -87,7 +87,8 @@ check("C02", "exploration",
       "tier all depth-3 chains and all binary parents with two compound operands) is rendered with full and with "
       "table-minimal parentheses and parsed by the real parser as a bare expression and inside an initialiser, a guard, an "
       "update, a statement and a query; the tree handed to clients must equal the abstract tree (kinds, operand order, "
-      "symbols, constants). Literal boundary grid: integers exact or diagnosed, floats bit-equal to the correctly rounded "
+      "symbols, constants); every depth-1 tree also in 12 positions of control statements (conditions, for-init/step, return, assert, "
+      "inner statements) next to 11 bodies with declarations. Literal boundary grid: integers exact or diagnosed, floats bit-equal to the correctly rounded "
       "double. Exhaustive within the stated tree shapes.",
       "Trusts the reference operator table R1 (lib/exprgen.py), the harness s-expression renderer and Python float() as "
       "correctly rounded reference. Small scope: depth <= 3, one representative per operator class.",
@@ -170,7 +171,7 @@ check("C08", "exploration",
 check("C10", "exploration",
       "Every boolean formula tree up to depth 3 over the atom/connective alphabet (and every depth-2 tree over 20 atom spellings), "
       "placed as guard (plain edge, edge into / out of a branchpoint, edge with select and synchronisation) and as invariant "
-      "(ordinary, urgent, committed location, second template), is type "
+      "(ordinary, urgent, committed location, second template), and with the label written as a CDATA section, is type "
       "checked by the real library and compared with a reference convexity classifier transcribed from the statement; "
       "a plain conjunction of atoms that are accepted alone must be accepted. Exhaustive within the stated alphabet/depth.",
       "Trusts the reference classifier R4 in checks/c10.py and the small-scope hypothesis (depth <= 3, 3 (quick) / 6 (thorough) "
@@ -188,7 +189,8 @@ check("C11", "exploration",
       "expression; each cell is paired with a read-only twin that must be accepted and a "
       "local-only-writer control, so that the real type checker's verdicts are decided cell by cell. Plus template-local writers "
       "around later same-named declarations, and six contexts inside the definition of a dynamic template whose announcement "
-      "stands before / between / after the called functions.",
+      "stands before / between / after the called functions; invariants of urgent and committed locations; queries calling template-local "
+      "functions through a process or an element of a process set (7 writers, 3 readers, 9 query forms).",
       "Twins in compile-time contexts read constants only. Progress measures are not in the statement's list and are not "
       "enumerated. Small scope: chains <= 3, one representative per statement form.",
       "bounded-exhaustive matrix enumeration on the real type checker with a twin (differential) oracle",
@@ -203,7 +205,7 @@ check("C12", "exploration",
       "buried in 11 composite types (records of arrays of a typedef'd const, arrays of records, nested records): every scalar "
       "access path x 8 write forms x {update, function body, reference parameter of the composite type}. Dynamic templates with "
       "const / reference parameters and spawn arguments; 14 shapes of a constant reaching a written reference parameter through the "
-      "own parameters of one and two partial instances.",
+      "own parameters of one and two partial instances; constants whose initialiser or size contains a quantifier.",
       "Quantifier binders have no accepted twin. Small scope: listed shapes/forms.",
       "bounded-exhaustive matrix enumeration on the real type checker with a twin (differential) oracle",
       "DESIGN.md §3/C12")
@@ -217,7 +219,8 @@ check("C13", "exploration",
       "variables), plus free process parameters inside array sizes with bound twins, plus 7 function-local contexts x 11 "
       "dependence chains that stay inside one function body (parameters, local variables, local constants initialised from "
       "run-time values), const-typed template parameters through functions, chains of 1-3 partial instantiations, and 8 chains "
-      "through template-local constant arrays / records / arrays of records x 4 sinks; mutable cell must be rejected, constant twin accepted.",
+      "through template-local constant arrays / records / arrays of records x 4 sinks, and 14 functions that read the variable in exactly one "
+      "syntactic position; mutable cell must be rejected, constant twin accepted.",
       "Every declared type is used. Function-local initialisers are outside the statement. Small scope: chains <= 3.",
       "bounded-exhaustive matrix enumeration on the real type checker with a twin (differential) oracle",
       "DESIGN.md §3/C13")
@@ -262,7 +265,8 @@ check("C09", "exploration",
       "back, positions ignored), supported methods, document dump and parsed queries must equal the base model's. Plus a "
       "redundant pair of parentheses around every node of every depth-2 expression tree of the C02 enumeration. One name declared "
       "in two scopes: 7 kinds of declaration x every pair of {global, two templates, function body} x every pair of well-formed / "
-      "ill-formed spellings x renaming either declaration alone (522 pairs of models).",
+      "ill-formed spellings x renaming either declaration alone (522 pairs of models). Models of the 3.x syntax (XTA and XML): the word "
+      "operators and / or / not / imply at every slot of 10 texts against their symbolic forms.",
       "Trusts lib/exprgen.py to render the same tree with extra parentheses / alias spellings. sup, inf, bounds, simulation are "
       "not used for template/location names (the XML reader deliberately refuses keywords there). Newlines are not inserted "
       "into queries (they separate queries). Small scope: the base models of checks/c09.py, one rewrite at a time.",
